@@ -844,6 +844,13 @@ def run(rep, tier):
     # (rule shared with C13, where it lives)
     from props import c13
     rep.floor("compression pointer loops", c13.jump_counter_rule(rep, ud), 2)
+    # "lists the same attributes": the attribute walkers keep cursor and remaining size together (extent lints of memsafe)
+    from props import memsafe
+    for f_ in ur.function_list:
+        if f_.relfile() == RADIUS_H and f_.has_cfg:
+            memsafe.stale_bound_rule(rep, f_)
+            memsafe.stale_length_rule(rep, f_)
+            memsafe.stale_remaining_rule(rep, f_)
     nwf = nacc = 0
     for lab, u in us.items():
         fns_ = [f for f in u.function_list if f.file.startswith(core.REPO + "/")]
